@@ -480,3 +480,15 @@ func Pick(a, b int) int {
 	}
 	return a
 }
+
+// typed keys: the interface{}-keyed containers route different key types through different code (integer widths by
+// modulo, strings / byte slices through the hash); key index i stands for the value KeyOf(i).
+var typedKeys = []interface{}{int(0), int(1), int64(2), "k3", uint8(4), int(-1), int32(-7), uint64(1 << 40), "", int16(300)}
+
+// KeyOf maps a small key index to a typed key value (stable, distinct per index).
+func KeyOf(i int) interface{} {
+	if i >= 0 && i < len(typedKeys) {
+		return typedKeys[i]
+	}
+	return i
+}
